@@ -163,6 +163,28 @@ def profiles_history(base, variants):
     """One process, several calls: the base forcing first, then near-twin forcings that differ from it in ONE argument by
     a small amount (roughness length by 0.2 %, measurement height, stability, wind, layer count, closure).  Every call is
     judged by the per-call oracle of `profiles`: what an earlier call computed must not show in a later one."""
+    import numpy as np
+    import bldfm.pbl_model as _pbl
+    real = _pbl.vertical_profiles
+
+    def scribbling(*a, **k):
+        """The caller of every call of this history edits the arrays it got in place (a sensitivity run: `Kz *= 0.5`): the
+        oracle judges copies taken at return time, the returned objects themselves are overwritten."""
+        z, prof = real(*a, **k)
+        zc, pc = np.array(z, copy=True), tuple(np.array(p, copy=True) for p in prof)
+        for arr in (z,) + tuple(prof):
+            if isinstance(arr, np.ndarray) and arr.flags.writeable:
+                arr *= 0.5
+                arr += 0.125
+        return zc, pc
+    _pbl.vertical_profiles = scribbling
+    try:
+        return _profiles_history(base, variants)
+    finally:
+        _pbl.vertical_profiles = real
+
+
+def _profiles_history(base, variants):
     v0 = profiles(**base)
     if not v0.ok:
         return v0
